@@ -101,6 +101,22 @@ def runLoop (o : HOpts) (n : Nat) (oracle : Store → List Goal → Option Sol) 
       | none => (done, false)
       | some s => runLoop o n oracle rest (convertAll o n s st1 gs) (done ++ [(gs, s)])
 
+/-- The loop over a family of independent stores — one per ensemble member and per kind of
+    goal (point goals: one step; path goals: `len(times())` steps) — solved together: one solver
+    call per priority sees all stores and all goals and returns a solution for every index. -/
+def runLoopM {ι : Type} (o : HOpts) (n : ι → Nat)
+    (oracle : (ι → Store) → (ι → List Goal) → Option (ι → Sol)) :
+    List (ι → List Goal) → (ι → Store) → List ((ι → List Goal) × (ι → Sol)) →
+      List ((ι → List Goal) × (ι → Sol)) × Bool
+  | [], _, done => (done, true)
+  | gs :: rest, st, done =>
+      match oracle (fun j => insertCriticals o (n j) (st j) (gs j)) gs with
+      | none => (done, false)
+      | some s =>
+          runLoopM o n oracle rest
+            (fun j => convertAll o (n j) (s j) (insertCriticals o (n j) (st j) (gs j)) (gs j))
+            (done ++ [(gs, s)])
+
 /-- the stores handed to the solver along a run (for `store_monotone`) -/
 def runStores (o : HOpts) (n : Nat) (oracle : Store → List Goal → Option Sol) :
     List (List Goal) → Store → List Store
